@@ -14,3 +14,229 @@ def run(tier):
 
 def replay(rep):
     return e2prop.replay(PROP, rep, tags=KW.get("tags"))
+
+
+# --------------------------------------------------------------------------
+# file-backed half: process death at every file operation of a run (E4 inside a run)
+# --------------------------------------------------------------------------
+import json as _json
+import os as _os
+import shutil as _shutil
+import tempfile as _tempfile
+
+from .. import common as _common, e2 as _e2, e4 as _e4
+
+FILE_PLANS = {
+    "chain": [{"kind": "S"}, {"kind": "C", "args": [0]}, {"kind": "C", "args": [1]}],
+    "chain-unstored-mid": [{"kind": "S"}, {"kind": "C", "args": [0]}, {"kind": "U", "args": [1]}, {"kind": "C", "args": [2]}],
+    "diamond": [{"kind": "S"}, {"kind": "C", "args": [0]}, {"kind": "C", "args": [0]}, {"kind": "C", "args": [1, 2]}],
+    "plain-dep": [{"kind": "S"}, {"kind": "C", "args": [0]}, {"kind": "C", "deps": [1]}],
+}
+
+
+def _jscratch(spec, ver):
+    vals = {}
+    for i, nd in enumerate(spec):
+        if nd["kind"] == "S":
+            vals[i] = {"src": i, "ver": ver}
+        else:
+            vals[i] = {"f": i, "args": [vals[a] for a in nd.get("args", ())]}
+    return vals
+
+
+class FileWorld:
+    def __init__(self, spec, d):
+        import uberjob
+        from uberjob.stores import JsonFileStore
+
+        self.uberjob, self.spec, self.d = uberjob, spec, d
+        plan, reg = uberjob.Plan(), uberjob.Registry()
+        nodes = []
+        self.paths = {}
+        for i, nd in enumerate(spec):
+            path = _os.path.join(d, f"n{i}.json")
+            if nd["kind"] == "S":
+                node = reg.source(plan, JsonFileStore(path))
+                self.paths[i] = path
+            else:
+                def f(*args, _i=i):
+                    return {"f": _i, "args": list(args)}
+                f.__name__ = f.__qualname__ = f"f{i}"
+                node = plan.call(f, *[nodes[a] for a in nd.get("args", ())])
+                if nd["kind"] == "C":
+                    reg.add(node, JsonFileStore(path))
+                    self.paths[i] = path
+            for dep in nd.get("deps", ()):
+                plan.add_dependency(nodes[dep], node)
+            nodes.append(node)
+        self.plan, self.reg, self.nodes = plan, reg, nodes
+
+    def next_time(self):
+        ts = [int(_os.stat(p).st_mtime) for p in self.paths.values() if _os.path.exists(p)]
+        return max(ts + [1_000_000_000]) + 10
+
+    def write_source(self, i, ver):
+        p = self.paths[i]
+        t = self.next_time()
+        with _e4._real_open(p, "w") as fh:
+            _json.dump({"src": i, "ver": ver}, fh)
+        _os.utime(p, (t, t))
+
+    def snapshot(self):
+        """{i: None | (mtime, value | '<corrupt>')} straight from the files."""
+        snap = {}
+        for i, p in self.paths.items():
+            if not _os.path.exists(p):
+                snap[i] = None
+                continue
+            try:
+                with _e4._real_open(p) as fh:
+                    v = _json.load(fh)
+            except ValueError:
+                v = "<corrupt>"
+            snap[i] = (int(_os.stat(p).st_mtime), v)
+        return snap
+
+    def run(self, rec=None):
+        """uberjob.run with every staged file stamped with a strictly increasing logical mtime at its rename."""
+        world = self
+
+        class Rec(_e4.Recorder):
+            def step(self_, kind, detail, do):
+                if kind in ("replace", "rename"):
+                    def do2():
+                        src = _os.path.join(world.d, detail[0])
+                        t = world.next_time()
+                        _os.utime(src, (t, t))
+                        return do()
+                    return super().step(kind, detail, do2)
+                return super().step(kind, detail, do)
+
+        r = Rec(self.d, fault=rec)
+        with _e4.Intercept(r):
+            out = self.uberjob.run(self.plan, registry=self.reg, output=self.nodes[-1], max_workers=1, progress=None)
+        return out, r
+
+
+def _file_case(payload):
+    name, spec, prehistory = payload
+    root = _tempfile.mkdtemp(prefix="c08f_")
+    viols = []
+    evals = 0
+    nontrivial = set()
+    anc = _e2.ancestors(spec)
+    try:
+        def prepare(tag):
+            d = _os.path.join(root, tag)
+            _os.makedirs(d)
+            w = FileWorld(spec, d)
+            for i, nd in enumerate(spec):
+                if nd["kind"] == "S":
+                    w.write_source(i, 0)
+            ver = 0
+            if prehistory == "after-update":
+                w.run()
+                ver = 1
+                for i, nd in enumerate(spec):
+                    if nd["kind"] == "S":
+                        w.write_source(i, 1)
+            return w, ver
+
+        w, ver = prepare("ref")
+        _, rec = w.run()
+        ops = list(rec.ops)
+        ref = _jscratch(spec, ver)
+        snap = w.snapshot()
+        for i, p in w.paths.items():
+            if snap[i] is None or snap[i][1] != ref[i]:
+                viols.append(("ref", f"{name}/{prehistory}: after a complete run store {i} holds {snap[i]}, expected {ref[i]}"))
+        evals += 1
+        for k in range(len(ops)):
+            for mode in ("die-before", "die-after"):
+                w, ver = prepare(f"k{k}{mode}")
+                pre = w.snapshot()
+                pid = _os.fork()
+                if pid == 0:
+                    try:
+                        w.run(rec=(k, mode))
+                        _os._exit(0)
+                    except BaseException:  # noqa
+                        _os._exit(3)
+                    finally:
+                        _os._exit(4)
+                _, status = _os.waitpid(pid, 0)
+                code = _os.waitstatus_to_exitcode(status)
+                evals += 1
+                if code != 77:
+                    viols.append(("harness", f"{name}/{prehistory}: child did not die at op {k} ({ops[k]}) but exited {code}"))
+                    continue
+                post = w.snapshot()
+                where = f"{name}/{prehistory}: death {mode} file operation {k} {ops[k]}"
+                nontrivial.add((name, prehistory, ops[k][0], mode, tuple(sorted(i for i in post if post[i] != pre[i]))))
+                # invariant: everything the stale rule would treat as up to date equals its from-scratch value
+                ood = _e2.out_of_date(spec, post, None, anc)
+                for i in w.paths:
+                    if spec[i]["kind"] != "C" or post[i] is None or i in ood:
+                        continue
+                    if post[i][1] != ref[i]:
+                        viols.append((f"invariant {ops[k][0]}/{mode}", f"{where}: store {i} looks up to date but holds {str(post[i][1])[:80]}, from-scratch value is {ref[i]}"))
+                # follow-up run (fresh plan objects, same files)
+                w2 = FileWorld(spec, w.d)
+                try:
+                    out, _ = w2.run()
+                except BaseException as e:  # noqa
+                    viols.append((f"followup {ops[k][0]}/{mode}", f"{where}: the next run raised {e!r}"))
+                    continue
+                fin = w2.snapshot()
+                if out != ref[len(spec) - 1]:
+                    viols.append((f"followup-output {ops[k][0]}/{mode}", f"{where}: the next run returned {str(out)[:80]}, from scratch gives {ref[len(spec) - 1]}"))
+                for i in w.paths:
+                    if fin[i] is None or fin[i][1] != ref[i]:
+                        viols.append((f"followup-store {ops[k][0]}/{mode}", f"{where}: after the next run store {i} holds {str(fin[i])[:80]}, from scratch gives {ref[i]}"))
+                    elif spec[i]["kind"] == "C" and post[i] is not None and i not in ood and fin[i][0] != post[i][0]:
+                        viols.append((f"followup-rewrite {ops[k][0]}/{mode}", f"{where}: store {i} was complete and up to date after the cut but the next run rewrote it"))
+                left = [f for f in _os.listdir(w.d) if not (f.startswith("n") and f.endswith(".json"))]
+                if left:
+                    viols.append((f"followup-litter {ops[k][0]}/{mode}", f"{where}: after the next run the directory still holds {left}"))
+                _shutil.rmtree(w.d, ignore_errors=True)
+        return {"evals": evals, "viols": viols, "nontrivial": len(nontrivial), "ops": [list(map(str, o)) for o in ops]}
+    finally:
+        _shutil.rmtree(root, ignore_errors=True)
+
+
+def file_part():
+    payloads = [(n, s, h) for n, s in FILE_PLANS.items() for h in ("from-empty", "after-update")]
+    res = _common.pmap(_file_case, payloads)
+    viols = []
+    for (n, s, h), r in zip(payloads, res):
+        for key, msg in r["viols"]:
+            viols.append(_common.Violation(PROP, f"file {n} {key}", msg, {"engine": "E4-run", "plan": n, "prehistory": h}))
+    cov = {"file_backed_cases": sum(r["evals"] for r in res),
+           "file_backed_distinct_cut_states": sum(r["nontrivial"] for r in res),
+           "file_backed_sample": {"plan": payloads[0][0], "file_operations_of_one_run": res[0]["ops"][:12]}}
+    return viols, cov
+
+
+_e2_run = run
+
+
+def run(tier):  # noqa: F811
+    res = _e2_run(tier)
+    v, cov = file_part()
+    res["violations"] += v
+    res["coverage"].update(cov)
+    res["coverage"]["rule"] += ("; file-backed half: plans over real JsonFileStores, a forked child runs uberjob.run and dies (os._exit) before/after EVERY file operation "
+                                "(open/write/close/replace, staging files stamped with a logical mtime at their rename), the parent checks the invariant on the files and performs the follow-up run")
+    return res
+
+
+_e2_replay = replay
+
+
+def replay(rep):  # noqa: F811
+    if rep.get("engine") == "E4-run":
+        r = _file_case((rep["plan"], FILE_PLANS[rep["plan"]], rep["prehistory"]))
+        for k, m in r["viols"]:
+            print("ORACLE:", k, m)
+        return [m for k, m in r["viols"]]
+    return _e2_replay(rep)
